@@ -32,7 +32,7 @@ class C09(InterpProp):
     cmp_callbacks = False
     cmp_err = 'full'
     cmp_time = False
-    quick_cases = 600
+    quick_cases = 1500
     thorough_cases = 20000
     n_ops = 30
     with_contracts = 0.7
